@@ -283,7 +283,7 @@ def SecondStage (alg : Alg) (np : NetProblem K) : Prop :=
   | .svd => True
 
 /-- the structural facts about a handed-over system; all but `rows`/`weight` are theorems about
-    `PE.projectEquations` (`peWorld_facts`), `rows` follows from `NoAlias` (`C01_pe_rowsOK`) -/
+    `PE.projectEquations` (`peWorld_facts`), `rows` is `C01_pe_rowsOK` (no `NoAlias` since round 12) -/
 structure Shape (np : NetProblem K) : Prop where
   dims : (dimsN np).sum = np.m
   rows : RowsOK (toProblem np)
@@ -359,7 +359,7 @@ def linO : Option (NetProblem K) → LinProb K
   | some np => ⟨(toProblem np).m, (toProblem np).n, (toProblem np).A, (toProblem np).S⟩
 
 /-- everything asked of ONE handed-over system that `project_equations()` does not guarantee by itself:
-    no repeated column in a sparse row (`NoAlias`, `C01_pe_rowsOK`), an invertible covariance matrix with
+    column indices of the sparse rows in range (`RowsOK`; for `project_equations()` output a theorem, `C01_pe_rowsOK`), an invertible covariance matrix with
     `m0 ≠ 0`, the algorithm's rank decisions unambiguous at the first stage (`SolverHyp`, the premise of
     C01/C02/C03) and at the regularisation stage (`SecondStage`) -/
 structure NetHyp (alg : Alg) (np : NetProblem K) : Prop where
